@@ -1,7 +1,8 @@
-\* quick, structure: every file of <= 3 declarations over 2 struct types (with/without field), an interface,
-\* value/pointer methods M, N on either type (with/without a receiver call) and a function, in every order
-\* (methods before their type included); every Python module of <= 2 statements over the import forms,
-\* (decorated) classes with 0..2 (decorated) methods / nested defs and (decorated) functions
+\* quick, "structure": every Go file of <= 1 import and <= 3 declarations over 2 struct types (with / without a
+\* field), an interface (with / without a method), pointer method M and value method N on either type (with /
+\* without a receiver call) and a function - in EVERY order, methods before their receiver type included; every
+\* Python module of <= 3 statements over 5 import forms, (decorated) classes with 0..2 (decorated) methods and
+\* nested defs, (decorated) functions with nested defs.
 SPECIFICATION Spec
 CONSTANTS
   Langs = {"go", "py"}
